@@ -407,6 +407,24 @@ def views(chk: Check, n):
                          dict(input=inp, got=ps.rows[:3], expected=want[:3]))
         except ValueError as ex:
             chk.fail("to_html is not a well-formed table", dict(input=inp, error=repr(ex), html=htm[:300]))
+        # a custom formatter: every view must show the same cells for the same arguments
+        def fmt2(data, key):
+            return f"<{key}>={data.get(key)!r}"[:24]
+        try:
+            p2 = obj.to_pretty_dicts(keys, fmt2)
+            s2 = obj.to_string(keys, fmt2)
+            h2 = obj.to_html(keys, fmt2)
+            want2 = [ks] + [[fmt2(d, k) for k in ks] for d in dicts]
+            ps2 = CellParser()
+            ps2.feed(h2)
+            ps2.close()
+            w2 = [max(len(r[j]) for r in want2) for j in range(len(ks))]
+            lines2 = [" ".join(r[j].rjust(w2[j]) for j in range(len(ks))) for r in want2]
+            if [[p[k] for k in ks] for p in p2] != want2[1:] or s2 != "\n".join(lines2) or ps2.rows != want2:
+                chk.fail("with a custom formatter the views do not show the same cells (to_pretty_dicts / to_string / to_html)",
+                         dict(input=inp, pretty=[[p[k] for k in ks] for p in p2][:2], html=ps2.rows[:3], string=s2[:200]))
+        except Exception as ex:  # noqa: BLE001
+            chk.fail("a view raised with a custom formatter", dict(input=inp, error=repr(ex)))
         if types_homogeneous(dicts):
             chk.branch("dataframes:" + ("same-keys" if len({tuple(d) for d in dicts}) <= 1 else "different-key-sets"))
             try:
